@@ -20,7 +20,7 @@ pub struct C04;
 
 /// a typed attribute value as written in the line protocol
 #[derive(Clone, Debug, PartialEq)]
-enum V {
+pub(crate) enum V {
     Origin(u8), AsPath(Vec<THop>), NextHop(u32), Med(u32), LocalPref(u32), Atomic, Aggregator(u32, u32),
     Communities(Vec<u32>), Originator(u32), ClusterList(Vec<u32>), ExtComm(Vec<Vec<u8>>), As4Path(Vec<THop>),
     As4Aggregator(u32, u32), Connector(u32), AsPathLimit(u8, u32), Ipv6ExtComm(Vec<Vec<u8>>),
@@ -32,10 +32,10 @@ const TABLE: &[(u8, u8)] = &[(1, 0x40), (2, 0x40), (3, 0x40), (4, 0x80), (5, 0x4
     (9, 0x80), (10, 0x80), (16, 0xC0), (17, 0xC0), (18, 0xC0), (20, 0xC0), (21, 0xC0), (25, 0xC0), (32, 0xC0),
     (35, 0xC0), (128, 0xC0), (255, 0xC0)];
 
-fn canon_flags(code: u8) -> Option<u8> { TABLE.iter().find(|(c, _)| *c == code).map(|(_, f)| *f) }
+pub(crate) fn canon_flags(code: u8) -> Option<u8> { TABLE.iter().find(|(c, _)| *c == code).map(|(_, f)| *f) }
 
 impl V {
-    fn code(&self) -> u8 {
+    pub(crate) fn code(&self) -> u8 {
         match self {
             V::Origin(_) => 1, V::AsPath(_) => 2, V::NextHop(_) => 3, V::Med(_) => 4, V::LocalPref(_) => 5, V::Atomic => 6,
             V::Aggregator(..) => 7, V::Communities(_) => 8, V::Originator(_) => 9, V::ClusterList(_) => 10,
@@ -45,7 +45,7 @@ impl V {
         }
     }
     /// reference value bytes (None for the AS path kinds: judged by hops)
-    fn ref_value(&self) -> Option<Vec<u8>> {
+    pub(crate) fn ref_value(&self) -> Option<Vec<u8>> {
         let cat = |l: &Vec<Vec<u8>>| l.iter().flatten().copied().collect::<Vec<u8>>();
         let u32s = |l: &Vec<u32>| l.iter().flat_map(|x| x.to_be_bytes()).collect::<Vec<u8>>();
         Some(match self {
@@ -63,8 +63,8 @@ impl V {
     }
 }
 
-fn nats(l: &[u32]) -> String { l.iter().map(|x| x.to_string()).collect::<Vec<_>>().join(".") }
-fn recs(l: &[Vec<u8>]) -> String { l.iter().map(|x| hex(x)).collect::<Vec<_>>().join(".") }
+pub(crate) fn nats(l: &[u32]) -> String { l.iter().map(|x| x.to_string()).collect::<Vec<_>>().join(".") }
+pub(crate) fn recs(l: &[Vec<u8>]) -> String { l.iter().map(|x| hex(x)).collect::<Vec<_>>().join(".") }
 fn thops(v: &[THop]) -> String {
     join(v.iter().map(|h| match h {
         THop::Asn(a) => format!("a{}", a),
@@ -73,7 +73,7 @@ fn thops(v: &[THop]) -> String {
 }
 
 /// canonical reply text
-fn show_v(v: &V) -> String {
+pub(crate) fn show_v(v: &V) -> String {
     match v {
         V::Origin(n) => format!("origin:{}", n),
         V::AsPath(h) => format!("aspath:{}", thops(h)),
@@ -210,7 +210,7 @@ fn dbg_bytes(d: &str, key: &str) -> Vec<u8> {
 
 fn show_path(h: &HopPath) -> String { join(h.iter().map(show_hop).collect()) }
 
-fn show_rc(pa: &PathAttribute) -> String {
+pub(crate) fn show_rc(pa: &PathAttribute) -> String {
     match pa {
         PathAttribute::Origin(o) => format!("typed:origin:{}", u8::from(o.0)),
         PathAttribute::AsPath(h) => format!("typed:aspath:{}", show_path(h)),
@@ -251,7 +251,7 @@ fn compose(pa: &PathAttribute) -> Vec<u8> {
 
 // ------------------------------------------------------------ reference side
 /// (flags, code, value, rest) or None when the header/value is cut short (RFC 4271 4.3)
-fn ref_split(bs: &[u8]) -> Option<(u8, u8, &[u8], &[u8])> {
+pub(crate) fn ref_split(bs: &[u8]) -> Option<(u8, u8, &[u8], &[u8])> {
     if bs.len() < 3 { return None; }
     let (fl, tc) = (bs[0], bs[1]);
     let (hl, n) = if fl & 0x10 != 0 { if bs.len() < 4 { return None; } (4, u16::from_be_bytes([bs[2], bs[3]]) as usize) } else { (3, bs[2] as usize) };
@@ -260,7 +260,7 @@ fn ref_split(bs: &[u8]) -> Option<(u8, u8, &[u8], &[u8])> {
 }
 
 /// the type's length rule, from the RFCs; for the AS paths the segment structure
-fn ref_rule(code: u8, four: bool, v: &[u8]) -> bool {
+pub(crate) fn ref_rule(code: u8, four: bool, v: &[u8]) -> bool {
     let n = v.len();
     match code {
         1 => n == 1, 3 | 4 | 5 | 9 | 20 | 35 => n == 4, 6 => n == 0, 7 => n == if four { 8 } else { 6 },
@@ -285,7 +285,7 @@ fn ref_path_text(v: &[u8], four: bool) -> Option<String> {
 }
 
 /// reference decoder for a value that satisfies its rule (four-octet session unless stated)
-fn ref_decode(code: u8, four: bool, v: &[u8]) -> Option<String> {
+pub(crate) fn ref_decode(code: u8, four: bool, v: &[u8]) -> Option<String> {
     let chunks = |k: usize| v.chunks(k).map(|c| c.to_vec()).collect::<Vec<_>>();
     Some(match code {
         1 => show_v(&V::Origin(v[0])),
@@ -349,7 +349,7 @@ fn blob(rng: &mut Rng, edge: usize) -> Vec<u8> {
 }
 fn api_path(rng: &mut Rng) -> Vec<THop> { parse_api_hops(&gen_hop_path(rng)).unwrap() }
 
-fn gen_value(rng: &mut Rng, kind: u64) -> V {
+pub(crate) fn gen_value(rng: &mut Rng, kind: u64) -> V {
     match kind {
         0 => V::Origin(if rng.chance(1, 2) { rng.below(4) as u8 } else { rng.u8() }),
         1 => V::AsPath(api_path(rng)),
